@@ -1,6 +1,7 @@
 import Rfsm.Audit
 import Rfsm.Proofs.ExprOps
 import Rfsm.Proofs.ExprGrouping
+import Rfsm.Proofs.ExprLexerLemmas
 /-!
 # C10 — rfsm-expression evaluation follows the documented language semantics
 
@@ -44,10 +45,20 @@ def C10_parens_full : Prop :=
   ∀ (text : Str) (e : Expr), parse text = .ok e → (∀ c ∈ text, c ≠ 0) →
     parse ([40] ++ text ++ [41]) = .ok e
 
-/-- incidental white space: blanks between two tokens do not change the token stream -/
-def C10_whitespace_full : Prop :=
+/-- incidental white space, part 1: amount and kind of the white space in front of a token do not
+matter -/
+def C10_whitespace_gap : Prop :=
   ∀ (stops : List Ch) (ws : Str) (inp : Str), (∀ c ∈ ws, isWhitespace c = true) →
     nextToken stops (ws ++ inp) = nextToken stops inp
+
+/-- incidental white space, part 2: a blank between an operand and a binary operator, or between
+the operator and the next operand, may be left out (`a op b` = `a␣op␣b`); stated for integer
+operands -/
+def C10_whitespace_tight : Prop :=
+  ∀ (a b : Nat) (o : Str), o ∈ [[43], [45], [42], [47], [37]] →
+    parse (natToStr a ++ o ++ natToStr b) = parse (natToStr a ++ [32] ++ o ++ [32] ++ natToStr b)
+
+def C10_whitespace_full : Prop := C10_whitespace_gap ∧ C10_whitespace_tight
 
 /-- the whole property -/
 def C10_full : Prop :=
@@ -261,6 +272,38 @@ theorem C10_counterexample_int_compare (a b : Int)
 #assert_axioms C10_counterexample_int_compare
 
 end table
+
+/-! ## White space and parentheses -/
+
+theorem C10_whitespace_gap_holds : C10_whitespace_gap :=
+  fun stops ws inp h => nextToken_skip_ws stops ws inp h
+#assert_axioms C10_whitespace_gap_holds
+
+/-- `1-2` is not `1 - 2`: the `-` is lexed as the sign of the literal `-2` -/
+theorem C10_counterexample_whitespace : ¬ C10_whitespace_tight := by
+  intro h
+  have := h 1 2 [45] (by simp)
+  have h1 : parse (natToStr 1 ++ [45] ++ natToStr 2) = .err .failedEvaluate := rfl
+  have h2 : parse (natToStr 1 ++ [32] ++ [45] ++ [32] ++ natToStr 2) =
+      .ok (.op .minus (.const (.int 1)) (.const (.int 2))) := rfl
+  rw [h1, h2] at this
+  cases this
+#assert_axioms C10_counterexample_whitespace
+
+/-- `+ * / %` are fine without blanks (tests on concrete texts, evaluated by the kernel):
+`7+2`, `7*2`, `7/2`, `7%2` parse like their spaced forms -/
+example : parse [55, 43, 50] = parse [55, 32, 43, 32, 50] := rfl
+example : parse [55, 42, 50] = parse [55, 32, 42, 32, 50] := rfl
+example : parse [55, 47, 50] = parse [55, 32, 47, 32, 50] := rfl
+example : parse [55, 37, 50] = parse [55, 32, 37, 32, 50] := rfl
+
+/-- redundant parentheses (tests on concrete texts, evaluated by the kernel; the universal
+statement `C10_parens_full` is not proved — it needs a simulation between the token loops run with
+different stop sets; the harness checks it on every generated chain):
+`(10 - 4 - 3)`, `((1) + (2))`, `(a.b)` parse like the texts without them -/
+example : parse ([40] ++ text_10_4_3 ++ [41]) = parse text_10_4_3 := rfl
+example : parse [40, 40, 49, 41, 32, 43, 32, 40, 50, 41, 41] = parse [49, 32, 43, 32, 50] := rfl
+example : parse [40, 97, 46, 98, 41] = parse [97, 46, 98] := rfl
 
 /-! ## Compilation cache -/
 
